@@ -87,8 +87,8 @@ def _red_work(chunk):
     out = []
     n = 0
     for case in chunk:
-        n += 2
-        for cname, sig, src in c02.check_one(case, ["statement", "initializer"]):
+        n += 4
+        for cname, sig, src in c02.check_one(case, ["statement", "initializer", "labelled", "case_statement"]):
             out.append((sig, src))
     return n, out
 
